@@ -3,7 +3,14 @@
 From V Require Export Model.Lru.
 Open Scope N_scope.
 
-Record case := mkCase { c_cap : nat; c_ops : list op; c_res : list (option val); c_harm : N }.
+(* one call of a concurrent history: the operation, what it returned, and two stamps drawn from one
+   atomic counter immediately before the call and immediately after it returned *)
+Record cop := mkCop { co_op : op; co_res : option val; co_start : N; co_end : N }.
+
+Inductive case :=
+| mkCase (c_cap : nat) (c_ops : list op) (c_res : list (option val)) (c_harm : N)
+| ConcCase (cap : nat) (ops : list cop)
+| StressCase (puts gets : list (key * val)).
 
 Definition opt_eqb (a b : option val) : bool :=
   match a, b with
@@ -20,16 +27,70 @@ Fixpoint res_eqb (a b : list (option val)) : bool :=
   end.
 
 (* model vs implementation *)
+(* ---- linearizability of a small concurrent history, by search: repeatedly choose a pending call
+   that no other pending call precedes in real time (ended before it started) and whose result
+   is what the sequential object returns in the current state *)
+Fixpoint remove_nth {A} (n : nat) (l : list A) : list A :=
+  match n, l with
+  | _, [] => []
+  | O, _ :: t => t
+  | S k, x :: t => x :: remove_nth k t
+  end.
+Definition minimal (c : cop) (pending : list cop) : bool :=
+  forallb (fun d => negb (co_end d <? co_start c)) pending.
+
+(* vm_compute is call-by-value: && and || would evaluate both sides, so the search is written with if *)
+Fixpoint first_ok (f : nat -> bool) (l : list nat) : bool :=
+  match l with [] => false | i :: t => if f i then true else first_ok f t end.
+
+Section Lin.
+  Context {St : Type} (stp : St -> op -> St * option val).
+  Fixpoint lin (fuel : nat) (st : St) (pending : list cop) : bool :=
+    match fuel with
+    | O => false
+    | S f =>
+        match pending with
+        | [] => true
+        | _ =>
+            first_ok (fun i =>
+              match nth_error pending i with
+              | Some c =>
+                  if minimal c pending then
+                    let '(st', r) := stp st (co_op c) in
+                    if opt_eqb r (co_res c) then lin f st' (remove_nth i pending) else false
+                  else false
+              | None => false
+              end) (seq 0 (length pending))
+        end
+    end.
+End Lin.
+
+Definition stress_sane (puts gets : list (key * val)) : bool :=
+  forallb (fun g => if fst g =? 0 then existsb (fun p => snd p =? snd g) puts
+                    else existsb (fun p => (fst p =? fst g) && (snd p =? snd g)) puts) gets.
+
+(* model vs implementation *)
 Definition mismatch (c : case) : bool :=
-  negb (res_eqb (snd (run (lru_init (c_cap c)) (c_ops c))) (c_res c)).
+  match c with
+  | mkCase cp ops res _ => negb (res_eqb (snd (run (lru_init cp) ops)) res)
+  | ConcCase cp ops => negb (lin step (S (length ops)) (lru_init cp) ops)
+  | StressCase puts gets => negb (stress_sane puts gets)
+  end.
 
 (* property-level predicate on the implementation's own output, stated with the
    abstract specification only:
      1 = some lookup did not return what a least-recently-used map of that capacity returns
      2 = a session still in use / reachable was altered (c_harm counted by the harness) *)
+(*   3 = a concurrent history that no sequential order of its calls explains (against the abstract LRU)
+     4 = under concurrent load a lookup returned a session that was never stored under that key, or a damaged one *)
 Definition spec_code (c : case) : N :=
-  if negb (res_eqb (snd (srun (spec_init (c_cap c)) (c_ops c))) (c_res c)) then 1
-  else if 0 <? c_harm c then 2 else 0.
+  match c with
+  | mkCase cp ops res harm =>
+      if negb (res_eqb (snd (srun (spec_init cp) ops)) res) then 1
+      else if 0 <? harm then 2 else 0
+  | ConcCase cp ops => if lin sstep (S (length ops)) (spec_init cp) ops then 0 else 3
+  | StressCase puts gets => if stress_sane puts gets then 0 else 4
+  end.
 
 Definition mismatches (cs : list (N * case)) : list N :=
   map fst (filter (fun x => mismatch (snd x)) cs).
